@@ -75,7 +75,7 @@ class C18(Check):
         lat = gen.lattice(rs["lat"])
         uid = actors.UID()
         clock = r.choice(["burst", "trickle", "trickle", "edge", "edge", "idle"])
-        cfg = {"lat": lat, "alphabet": 3, "bulk_max": r.choice([2, 4, 10, 60]), "upsert_p": r.choice([0.0, 0.2]), "uid": uid, "clock": clock, "dirty_p": 0.5, "wild_meta": False}
+        cfg = {"lat": lat, "alphabet": 3, "bulk_max": r.choice([2, 4, 10, 60]), "upsert_p": r.choice([0.0, 0.2]), "uid": uid, "clock": clock, "dirty_p": 0.5, "wild_meta": False, "always_name": True}
         steps = actors.creates(rs["meta"], buckets, cfg)
         parties = []
         for k, b in enumerate(buckets):
@@ -86,7 +86,7 @@ class C18(Check):
         parties.append(FwdTicker(rs["tick"], cfg))
         parties.append(actors.Operator(rs["oper"], cfg))
         weights = {"importer": 3.0, "editor": r.choice([0.3, 1.0, 2.0]), "reader": r.choice([0.0, 0.1, 0.4]), "admin": r.choice([0.0, 0.1]), "ticker": r.choice([1.0, 2.5]), "operator": r.choice([0.0, 0.05])}
-        nsteps = r.choice([3, 5, 8, 15, 30, 60])
+        nsteps = r.choice([3, 5, 8, 15, 30, 60] + ([120, 240] if tier == "thorough" else []))
         sched = [s for s in actors.schedule(rs["sched"], parties, weights, nsteps) if s["op"] != "new_datastore"]
         steps += sched
         return {"backend": "sqlite", "steps": steps, "lat": lat, "clock": clock}
